@@ -52,7 +52,11 @@ Definition accepted : list (string * string * string * N * string) := [
    "the loop leaves when i == len(runes) before looking at runes[i]; the inner loops test i < len(runes) first; i only grows by one after such a test");
   ("path.go", "visit", "path[0]", 1%N,
    "paths are the template catalog's (gen/MigrationTable.v), each with at least one step: obligation catalog_paths_nonempty; the recursion only continues while len(rem) > 0");
-  ("path.go", "visit", "path[1:]", 1%N, "after path[0]")
+  ("path.go", "visit", "path[1:]", 1%N, "after path[0]");
+  ("templates.go", "rewriteOrphanTranslations", "path[:lastDot]", 1%N,
+   "paths are the template catalog's (gen/MigrationTable.v), each with a dot: obligation catalog_paths_dotted, so lastDot >= 0");
+  ("templates.go", "rewriteOrphanTranslations", "path[lastDot+1:]", 1%N,
+   "lastDot is an index into path (obligation catalog_paths_dotted), so lastDot+1 <= len(path)")
 ].
 
 Definition site_accepted (x : site) : bool :=
